@@ -7,6 +7,7 @@ import re
 
 from ..core import (AnalysisError, assigned_targets, body_nodes, call_name, dotted, enclosing_stmt, is_self_attr, key_text, names_in,
                     params, parent, stmts_of, unparse)
+from ..dtable import run_paths
 from ..flow import possibly_undefined, reaching_defs
 from ..normal import inline_temps
 from ..pattern import P, branches, guards_of, pmatch
@@ -305,6 +306,72 @@ def check_loopvar_const_index(prog, rep):
                                        unparse(const_idx[0].slice)), lp.lineno)
 
 
+def _check_coupling_handler(t, rep):
+    """coupling_term_handle_JW as a decision table over (left operator fermionic, right operator
+    fermionic) with op_string=None: (T,T) -> string 'JW' and the left operator multiplied by it;
+    (F,F) -> 'Id', operators untouched; exactly one -> error. An explicit op_string is kept."""
+    q = 'CouplingTerms.coupling_term_handle_JW'
+    f = inline_temps(t.func(q))
+    body = [s for s in f.body if not (isinstance(s, ast.Expr) and isinstance(s.value, ast.Constant))]
+    atoms = sorted({unparse(c) for c in body_nodes(f)
+                    if isinstance(c, ast.Call) and call_name(c) == 'op_needs_JW'})
+    rep.instance('JW-entry', {'function': 'coupling_term_handle_JW', 'atoms': atoms})
+    left = [a for a in atoms if a.endswith('(op_i)')]
+    right = [a for a in atoms if a.endswith('(op_j)')]
+
+    def bad(msg):
+        rep.violation('JW-entry', t, q, 'handler',
+                      'two fermionic operators -> string "JW" (multiplied onto the LEFT operator); '
+                      'exactly one -> error; none -> "Id": ' + msg, f.lineno)
+
+    if len(left) != 1 or len(right) != 1 or len(atoms) != 2:
+        return bad('the decisions op_needs_JW(op_i) / op_needs_JW(op_j) were not found (%s)' % atoms)
+    if 'i %' not in left[0] or 'j %' not in right[0]:
+        return bad('each operator must be looked up on its own site (%s, %s)' % (left[0], right[0]))
+    for a in (True, False):
+        for b in (True, False):
+            paths = run_paths(body, {left[0]: a, right[0]: b}, {'op_string': None})
+            outs = set()
+            for p in paths:
+                if p.outcome == 'raise':
+                    outs.add('raise')
+                elif p.outcome == 'return' and isinstance(p.value, ast.Tuple) and \
+                        len(p.value.elts) == 6:
+                    ops = p.env.get('op_string')
+                    li = p.env.get('op_i')
+                    lj = p.env.get('op_j')
+                    mult = isinstance(li, ast.AST) and bool(
+                        pmatch("$$s.multiply_op_names([op_i, 'JW'])", li)) and 'i %' in unparse(li)
+                    order = [unparse(e) for e in p.value.elts]
+                    if order != ['strength', 'i', 'j', 'op_i', 'op_j', 'op_string']:
+                        outs.add('returns %s' % order)
+                    else:
+                        outs.add('%s/left %s/right %s' % (
+                            ops, 'times JW' if mult else ('untouched' if li is None or not isinstance(
+                                li, ast.AST) else 'changed'),
+                            'untouched' if not isinstance(lj, ast.AST) else 'changed'))
+                else:
+                    outs.add('falls off / odd return')
+            want = {'JW/left times JW/right untouched'} if (a and b) else (
+                {'Id/left untouched/right untouched'} if not (a or b) else {'raise'})
+            rep.instance('JW-entry', {'function': 'coupling_term_handle_JW', 'left fermionic': a,
+                                      'right fermionic': b, 'outcome': sorted(outs)})
+            if outs != want:
+                return bad('for (left fermionic, right fermionic) = (%s, %s) the outcome is %s, '
+                           'expected %s' % (a, b, sorted(outs), sorted(want)))
+    # explicit string is kept, and 'JW' given explicitly is multiplied onto the left operator too
+    for given, mult_want in (("'Id'", False), ("'JW'", True)):
+        paths = run_paths(body, {}, {'op_string': ast.literal_eval(given)})
+        for p in paths:
+            if p.outcome != 'return':
+                continue
+            li = p.env.get('op_i')
+            mult = isinstance(li, ast.AST) and 'multiply_op_names' in unparse(li)
+            if p.env.get('op_string') != ast.literal_eval(given) or mult != mult_want:
+                return bad('an explicitly given op_string=%s must be kept%s' % (
+                    given, ' and multiplied onto the left operator' if mult_want else ''))
+
+
 def check_jw_entry_points(prog, rep):
     m = prog.module(MPS)
     table = {
@@ -341,14 +408,7 @@ def check_jw_entry_points(prog, rep):
     # terms.py handlers
     t = prog.module(TERMS)
     rep.unit(t)
-    f = t.func('CouplingTerms.coupling_term_handle_JW')
-    rep.instance('JW-entry', {'function': 'coupling_term_handle_JW'})
-    src = unparse(f)
-    if 'need_JW_i and need_JW_j' not in src or 'need_JW_i or need_JW_j' not in src or \
-            'multiply_op_names([op_i, op_string])' not in src:
-        rep.violation('JW-entry', t, 'CouplingTerms.coupling_term_handle_JW', 'handler',
-                      'two fermionic operators -> string "JW" (multiplied onto the left operator); '
-                      'exactly one -> error', f.lineno)
+    _check_coupling_handler(t, rep)
     f = t.func('MultiCouplingTerms.multi_coupling_term_handle_JW')
     rep.instance('JW-entry', {'function': 'multi_coupling_term_handle_JW'})
     src = unparse(f)
